@@ -112,8 +112,11 @@ def gen_history(rng, length=30, n_axioms=None, n_proofs=None, touch_residue=Fals
     tr = pt.Tracker()
     calls = []
     n_axioms = rng.choice((0, 1, 2)) if n_axioms is None else n_axioms
-    for _ in range(n_axioms):
-        ax = npat_for_calls(rng, 2, subst=0.2)
+    published = []
+    for _ in range(n_axioms + (1 if n_axioms and rng.random() < 0.4 else 0)):
+        # sometimes the same axiom is published twice (as with a module reachable along two import paths)
+        ax = rng.choice(published) if published and rng.random() < 0.4 else npat_for_calls(rng, 2, subst=0.2)
+        published.append(ax)
         seq = pt.compile_pattern(ax) + [('publish-axiom',)]
         t2 = _try(tr, seq)
         if t2 is not None:
